@@ -160,42 +160,55 @@ Qed.
 Lemma mv_name_inj f f' t t' : ~ In DASH t -> ~ In DASH t' -> mv_name f t = mv_name f' t' -> f = f' /\ t = t'.
 Proof. unfold mv_name. intros Ht Ht' E. apply app_inv_head in E. apply dash_split; assumption. Qed.
 
-Lemma mv_tokens_in perm missing vec t : (forall l x, In x (perm l) <-> In x l) ->
-  (In t (mv_tokens perm missing vec) <-> (~ In t missing /\ exists v, In v vec /\ In t (tokens v))).
+Lemma sinsert_in x l y : In y (sinsert x l) <-> y = x \/ In y l.
 Proof.
-  intros Hp. unfold mv_tokens. rewrite filter_In, Hp, uniq_in, in_flat_map, negb_true_iff. split.
+  induction l as [|z l IH]; cbn.
+  - split; [intros [H|[]]; left; symmetry; exact H | intros [H|[]]; left; symmetry; exact H].
+  - destruct (str_ltb z x); cbn; [rewrite IH|]; split; intros H; intuition congruence.
+Qed.
+Lemma sort_str_in l y : In y (sort_str l) <-> In y l.
+Proof.
+  induction l as [|x l IH]; cbn; [tauto|]. rewrite sinsert_in, IH. split; intros [H|H]; auto.
+Qed.
+
+Lemma mv_tokens_in missing vec t :
+  In t (mv_tokens missing vec) <-> (~ In t missing /\ exists v, In v vec /\ In t (tokens v)).
+Proof.
+  unfold mv_tokens. rewrite filter_In, sort_str_in, uniq_in, in_flat_map, negb_true_iff. split.
   - intros [H Hm]. split; [|exact H]. intros Hin. apply memb_spec in Hin. congruence.
   - intros [Hm H]. split; [exact H|]. destruct (memb t missing) eqn:E; [apply memb_spec in E; contradiction | reflexivity].
 Qed.
 
-Lemma mv_tokens_nodash perm missing vec t : (forall l x, In x (perm l) <-> In x l) ->
-  In t (mv_tokens perm missing vec) -> ~ In DASH t.
-Proof. intros Hp H. apply mv_tokens_in in H; [|exact Hp]. destruct H as [_ [v [_ Ht]]]. eapply tokens_spec, Ht. Qed.
+Lemma mv_tokens_nodash missing vec t : In t (mv_tokens missing vec) -> ~ In DASH t.
+Proof. intros H. apply mv_tokens_in in H. destruct H as [_ [v [_ Ht]]]. eapply tokens_spec, Ht. Qed.
 
-Lemma mv_all_in perm df missing feats k col :
-  In (k, col) (flat_map (mv_feature perm df missing) feats) <->
-  exists f t, In f feats /\ In t (mv_tokens (perm f) missing (getcol df f)) /\ k = mv_name f t /\ col = mv_column (getcol df f) t.
+Lemma mv_all_in df missing feats k col :
+  In (k, col) (flat_map (mv_feature df missing) feats) <->
+  exists f t, In f feats /\ In t (mv_tokens missing (getcol df f)) /\ k = mv_name f t /\ col = mv_column (getcol df f) t.
 Proof.
   rewrite in_flat_map. unfold mv_feature. split.
   - intros [f [Hf H]]. apply in_map_iff in H. destruct H as [t [E Ht]]. inversion E; subst. exists f, t. auto.
   - intros [f [t [Hf [Ht [-> ->]]]]]. exists f. split; [exact Hf|]. apply in_map_iff. exists t. auto.
 Qed.
 
-Lemma mv_functional perm df missing feats k v v' : perm_ok perm ->
-  In (k, v) (flat_map (mv_feature perm df missing) feats) -> In (k, v') (flat_map (mv_feature perm df missing) feats) -> v = v'.
+Lemma mv_functional df missing feats k v v' :
+  In (k, v) (flat_map (mv_feature df missing) feats) -> In (k, v') (flat_map (mv_feature df missing) feats) -> v = v'.
 Proof.
-  intros Hp H H'. apply mv_all_in in H. apply mv_all_in in H'.
+  intros H H'. apply mv_all_in in H. apply mv_all_in in H'.
   destruct H as [f [t [_ [Ht [-> ->]]]]]. destruct H' as [f' [t' [_ [Ht' [E ->]]]]].
-  apply mv_name_inj in E; [|eapply mv_tokens_nodash; [apply Hp|eassumption]|eapply mv_tokens_nodash; [apply Hp|eassumption]].
+  apply mv_name_inj in E; [|eapply mv_tokens_nodash; eassumption|eapply mv_tokens_nodash; eassumption].
   destruct E as [-> ->]. reflexivity.
 Qed.
 
-Lemma multivalue_new perm df missing feats out :
-  multivalue perm df missing feats = Some out ->
-  out = df ++ dict_of (flat_map (mv_feature perm df missing) feats) /\ forallb (has_col df) feats = true.
-Proof. unfold multivalue. destruct (forallb _ _); [|discriminate]. intros H. inversion H. auto. Qed.
+Lemma multivalue_new df missing feats out :
+  multivalue df missing feats = Some out ->
+  out = df ++ dict_of (flat_map (mv_feature df missing) feats) /\ forallb (has_col df) feats = true.
+Proof.
+  unfold multivalue. destruct (forallb _ _); cbn; [|discriminate].
+  destruct (negb _); [|discriminate]. intros H. inversion H. auto.
+Qed.
 
-Lemma multivalue_appends perm df missing feats out : wf df -> multivalue perm df missing feats = Some out -> appends df out.
+Lemma multivalue_appends df missing feats out : wf df -> multivalue df missing feats = Some out -> appends df out.
 Proof.
   intros Hw H. apply multivalue_new in H. destruct H as [-> Hf].
   eexists. split; [reflexivity|]. apply Forall_forall. intros [k col] Hc. apply dict_of_in in Hc.
@@ -203,48 +216,36 @@ Proof.
   apply getcol_length; [exact Hw|]. rewrite forallb_forall in Hf. apply Hf, Hin.
 Qed.
 
-Lemma multivalue_names_nodup perm df missing feats out :
-  multivalue perm df missing feats = Some out -> NoDup (names (skipn (length df) out)).
+Lemma multivalue_names_nodup df missing feats out :
+  multivalue df missing feats = Some out -> NoDup (names (skipn (length df) out)).
 Proof. intros H. apply multivalue_new in H. destruct H as [-> _]. rewrite skipn_app_exact. apply dict_of_nodup. Qed.
 
 (* the rule: a column MULTIEX-f-t exists iff t is a non-missing token of some row of f, and it is the indicator of t *)
-Theorem multivalue_rule perm df missing feats out f t : perm_ok perm ->
-  multivalue perm df missing feats = Some out -> In f feats -> ~ In DASH t ->
+Theorem multivalue_rule df missing feats out f t :
+  multivalue df missing feats = Some out -> In f feats -> ~ In DASH t ->
   ((exists col, In (mv_name f t, col) (skipn (length df) out)) <->
    (~ In t missing /\ exists v, In v (getcol df f) /\ In t (tokens v))) /\
   (forall col, In (mv_name f t, col) (skipn (length df) out) -> col = mv_column (getcol df f) t).
 Proof.
-  intros Hp H Hf Hd. apply multivalue_new in H. destruct H as [-> _]. rewrite skipn_app_exact.
-  assert (Hiff := dict_of_in_iff (flat_map (mv_feature perm df missing) feats) (fun k v v' => mv_functional perm df missing feats k v v' Hp)).
-  assert (Hchar : forall col, In (mv_name f t, col) (dict_of (flat_map (mv_feature perm df missing) feats)) <->
-                              In t (mv_tokens (perm f) missing (getcol df f)) /\ col = mv_column (getcol df f) t).
+  intros H Hf Hd. apply multivalue_new in H. destruct H as [-> _]. rewrite skipn_app_exact.
+  assert (Hiff := dict_of_in_iff (flat_map (mv_feature df missing) feats) (mv_functional df missing feats)).
+  assert (Hchar : forall col, In (mv_name f t, col) (dict_of (flat_map (mv_feature df missing) feats)) <->
+                              In t (mv_tokens missing (getcol df f)) /\ col = mv_column (getcol df f) t).
   { intros col. rewrite Hiff, mv_all_in. split.
-    - intros [f' [t' [_ [Ht' [E ->]]]]]. apply mv_name_inj in E; [|exact Hd|eapply mv_tokens_nodash; [apply Hp|eassumption]].
+    - intros [f' [t' [_ [Ht' [E ->]]]]]. apply mv_name_inj in E; [|exact Hd|eapply mv_tokens_nodash; eassumption].
       destruct E as [-> ->]. auto.
     - intros [Ht ->]. exists f, t. auto. }
   split.
-  - rewrite <- (mv_tokens_in (perm f)) by apply Hp. split.
-    + intros [col Hc]. apply Hchar in Hc. destruct Hc as [Hc _]. exact Hc.
+  - rewrite <- mv_tokens_in. split.
+    + intros [col Hc]. apply Hchar in Hc. tauto.
     + intros Ht. exists (mv_column (getcol df f) t). apply Hchar. auto.
   - intros col Hc. apply Hchar in Hc. tauto.
 Qed.
 
-(* the reorderings used to run the model are admissible iteration orders *)
-Lemma order_by_in obs l x : In x (order_by obs l) <-> In x l.
-Proof.
-  unfold order_by. rewrite in_app_iff, !filter_In, negb_true_iff. split.
-  - intros [[_ H]|[H _]]; [apply memb_spec, H | exact H].
-  - intros H. destruct (memb x obs) eqn:E.
-    + left. split; [apply memb_spec, E | apply memb_spec, H].
-    + right. auto.
-Qed.
-Lemma order_for_ok table : perm_ok (order_for table).
-Proof.
-  induction table as [|[k obs] r IH]; intros f l x; cbn; [tauto|].
-  destruct (streqb f k); [apply order_by_in | apply IH].
-Qed.
-Lemma id_perm_ok : perm_ok id_perm.
-Proof. intros f l x. unfold id_perm. tauto. Qed.
+(* the emitted order: the new columns of one feature follow the code-point order of their tokens *)
+Example sort_str_example :
+  sort_str [[98%N]; [97; 98]%N; []; [233%N]; [97%N]; [65%N]] = [[]; [65%N]; [97%N]; [97; 98]%N; [98%N]; [233%N]].
+Proof. reflexivity. Qed.
 
 Lemma ONE_not_EMPTY : ONE <> EMPTY.
 Proof. discriminate. Qed.
@@ -423,11 +424,10 @@ Section BatchProofs.
   Variable T : frame -> list (str * (nat -> cell)).
   Variable rnd : str -> nat -> cell.
   Variable sample : bool -> list (list str) -> list (list str).
-  Variable perm : str -> list str -> list str.
 
   Lemma step_transform_ok : append_step (transform T).
   Proof. intros d d' _ H. eapply transform_appends, H. Qed.
-  Lemma step_multivalue_ok missing feats : append_step (fun df => multivalue perm df missing feats).
+  Lemma step_multivalue_ok missing feats : append_step (fun df => multivalue df missing feats).
   Proof. intros d d' Hw H. eapply multivalue_appends; eassumption. Qed.
   Lemma step_sub_ok ops : append_step (fun df => subfeatures df ops).
   Proof. intros d d' Hw H. eapply subfeatures_appends; eassumption. Qed.
@@ -436,7 +436,7 @@ Section BatchProofs.
   Lemma step_noise_ok label : append_step (fun df => noisy rnd df label).
   Proof. intros d d' Hw H. eapply noisy_appends; eassumption. Qed.
 
-  Lemma batch_steps_ok cfg : Forall append_step (batch_steps h T rnd sample perm cfg).
+  Lemma batch_steps_ok cfg : Forall append_step (batch_steps h T rnd sample cfg).
   Proof.
     unfold batch_steps. repeat rewrite Forall_app. repeat split.
     - destruct (c_transformers cfg); constructor; [apply step_transform_ok | constructor].
@@ -447,7 +447,7 @@ Section BatchProofs.
     - destruct (c_noise cfg); constructor; [apply step_noise_ok | constructor].
   Qed.
 
-  Theorem batch_appends cfg df out : wf df -> batch_construct h T rnd sample perm cfg df = Some out ->
+  Theorem batch_appends cfg df out : wf df -> batch_construct h T rnd sample cfg df = Some out ->
     appends df out /\ wf out.
   Proof. intros Hw H. eapply run_steps_appends; [apply batch_steps_ok | exact Hw | exact H]. Qed.
 End BatchProofs.
@@ -507,7 +507,7 @@ Example ex_frame : frame :=
 Example ex_wf : wf ex_frame.
 Proof. repeat constructor. Qed.
 Example ex_multivalue :
-  option_map (fun out => names (skipn 3 out)) (multivalue_args id_perm ex_frame [109%N] [44; 123; 125]%N)
+  option_map (fun out => names (skipn 3 out)) (multivalue_args ex_frame [109%N] [44; 123; 125]%N)
   = Some [mv_name [109%N] [97%N]; mv_name [109%N] [98%N]; mv_name [109%N] [99%N]].
 Proof. vm_compute. reflexivity. Qed.
 Example ex_sub :
